@@ -191,6 +191,7 @@ class Runner:
         self.hist = History()
         self.sim = None
         self.model = None
+        self.model_b = None
         self.collector = None
         self.cmd_index = 0
         self.unit = self.prog.get("unit", "s")
@@ -315,6 +316,20 @@ class Runner:
                 sim.schedule_event_abs(now - one, model, "h", 5, eid=-1)
             elif kind == "neg_rel":
                 sim.schedule_event_rel(-one, model, "h", 5, eid=-1)
+            elif kind == "tiny_neg_rel":
+                # a negative delay that is absorbed by rounding when added to the clock
+                d = -5.55e-17 if float(now) != 0.0 else -5e-324
+                sim.schedule_event_rel(Duration(d) if self.prog["clock"] == "duration" else d,
+                                       model, "h", 5, eid=-1)
+            elif kind == "tiny_past_abs":
+                import math as _m
+                if self.prog["clock"] == "int":
+                    t = now - 1
+                elif self.prog["clock"] == "duration":
+                    t = Duration(_m.nextafter(float(now), -_m.inf))
+                else:
+                    t = _m.nextafter(float(now), -_m.inf)
+                sim.schedule_event_abs(t, model, "h", 5, eid=-1)
             elif kind == "nan_abs":
                 sim.schedule_event_abs(
                     Duration(nan) if self.prog["clock"] == "duration" else nan,
@@ -335,8 +350,8 @@ class Runner:
                 raise ValueError(kind)
             return "ok"
         except ValueError:
-            if kind not in ("past_abs", "neg_rel", "nan_abs", "nan_rel",
-                            "str_abs", "none_abs", "str_rel", "past_event"):
+            if kind not in ("past_abs", "neg_rel", "nan_abs", "nan_rel", "tiny_neg_rel",
+                            "tiny_past_abs", "str_abs", "none_abs", "str_rel", "past_event"):
                 raise
             return "refused:ValueError"
         except Exception as e:
@@ -376,6 +391,13 @@ class Runner:
         elif name == "initialize":
             rep = self.make_replication(cmd[1] if len(cmd) > 1 else None)
             sim.initialize(self.model, rep)
+            self.subscribe()
+        elif name == "initialize_b":
+            # a second model object (same program) on the same simulator
+            if self.model_b is None:
+                self.model_b = ProgramModel(self.sim, self)
+            rep = self.make_replication(cmd[1] if len(cmd) > 1 else None)
+            sim.initialize(self.model_b, rep)
             self.subscribe()
         else:
             raise ValueError("unknown command %r" % (cmd,))
